@@ -199,7 +199,7 @@ def random_state_kw(rng, boundary=0.6):
     pick = (lambda pool: rng.choice(pool)) if rng.random() < boundary else (lambda pool: rng.choice(pool[:4]))
     tag = rng.choice(glue.TAGS + ["final", "final"])
     return dict(major=pick(NUM_POOL), minor=pick(NUM_POOL), patch=pick(NUM_POOL), bid=rng.choice(BUILD_POOL),
-                tag=tag, num=rng.choice(TAGNUM_POOL) if tag != "final" or rng.random() < 0.2 else 0,
+                tag=tag, num=rng.choice(TAGNUM_POOL) if tag != "final" else 0,
                 inc0=pick(NUM_POOL[:5]), inc1=rng.choice([1, 2, 10, 100]))
 
 
